@@ -547,5 +547,49 @@ pub fn directed(names: &[String]) -> Vec<Trace> {
         }
         v.push(mk(format!("pref-values-{}", n), steps));
     }
+    // 4. a rule file of ANOTHER language / braille code is broken; the session switches into it (the load fails once or
+    //    reads odd content), keeps calling, switches back, the file is repaired: nothing may panic at any point, whatever
+    //    CheckRuleFiles says (with the default 'Prefs' a failed load is never retried because of time stamps), and the
+    //    session must afterwards behave like a fresh one
+    let targets: [(&str, &str, &[&str]); 2] = [
+        ("Language", "es", &["Languages/es/definitions.yaml", "Languages/es/unicode.yaml", "Languages/es/ClearSpeak_Rules.yaml", "Languages/es/navigate.yaml", "Languages/es/overview.yaml", "Languages/es/unicode-full.yaml"]),
+        ("BrailleCode", "CMU", &["Braille/CMU/CMU_Rules.yaml", "Braille/CMU/unicode.yaml", "Braille/CMU/definitions.yaml", "Braille/CMU/unicode-full.yaml"]),
+    ];
+    let kinds = [FaultKind::Empty, FaultKind::WrongTopType, FaultKind::Deleted, FaultKind::InvalidXpath(0), FaultKind::TruncBytes(500), FaultKind::WrongInnerShape];
+    for (pref, value, files) in targets {
+        for file in files {
+            for kind in &kinds {
+                for check in ["Prefs", "All"] {
+                    let mut steps = vec![Step::Call(Op::SetRulesDir(MOUNT_A.into())), Step::Call(Op::SetPref("CheckRuleFiles".into(), check.into()))];
+                    steps.push(Step::Call(Op::SetMathml(ExprRef::Pool(pools::EXPR_NEEDS_FULL_UNICODE))));
+                    steps.push(Step::Call(Op::Speech));
+                    steps.push(Step::Call(Op::Braille(IdRef::Empty)));
+                    steps.push(Step::Env(EnvEvent::Clock { ms: 1000 }));
+                    steps.push(Step::Env(EnvEvent::Fault { path: format!("{}/{}", MOUNT_A, file), kind: kind.clone() }));
+                    steps.push(Step::Call(Op::SetPref(pref.into(), value.into())));
+                    for _ in 0..2 {
+                        steps.push(Step::Call(Op::SetMathml(ExprRef::Pool(pools::EXPR_NEEDS_FULL_UNICODE))));
+                        steps.push(Step::Call(Op::Speech));
+                        steps.push(Step::Call(Op::Braille(IdRef::Empty)));
+                        steps.push(Step::Call(Op::Overview));
+                        steps.push(Step::Call(Op::Cmd("ZoomIn".into())));
+                        steps.push(Step::Call(Op::NodeFromPos(PosRef::Abs(1))));
+                    }
+                    steps.push(Step::Env(EnvEvent::Clock { ms: 1000 }));
+                    steps.push(Step::Env(EnvEvent::RepairAll));
+                    // first the calls an application makes anyway, THEN the recovery comparison
+                    steps.push(Step::Call(Op::SetPref("Verbosity".into(), "Terse".into())));
+                    steps.push(Step::Call(Op::SetMathml(ExprRef::Pool(2))));
+                    steps.push(Step::Call(Op::Speech));
+                    steps.push(Step::Call(Op::SetPref(pref.into(), if pref == "Language" { "en".into() } else { "Nemeth".into() })));
+                    steps.push(Step::Call(Op::SetMathml(ExprRef::Pool(2))));
+                    steps.push(Step::Call(Op::Speech));
+                    steps.push(Step::Call(Op::Braille(IdRef::Empty)));
+                    steps.push(Step::Check { kind: "recover".into(), args: json!({"expr": ExprRef::Pool(5), "after": "file-fault"}) });
+                    v.push(mk(format!("switch-into-broken-{}-{}-{}", file.rsplit('/').next().unwrap_or(file), crate::faults::kind_name(kind), check), steps));
+                }
+            }
+        }
+    }
     v
 }
